@@ -54,7 +54,12 @@ def bidirected_to_unobserved_confounder(
 
     # for every bidirected edge, add a new node
     bidirected_sub_graph = G.get_graphs(edge_type=bidirected_edge_name)
-    for idx, latent_edge in enumerate(bidirected_sub_graph.edges):
+    idx = 0
+    for latent_edge in bidirected_sub_graph.edges:
+        # the new node must be distinct from all existing nodes: skip generated
+        # names that are already in use (e.g. a user node that is called "U0")
+        while f"U{idx}" in G_copy:
+            idx += 1
         G_copy.add_node(f"U{idx}", label=uc_label, observed="no")
 
         # then add edges from the new UC to the nodes
